@@ -8,7 +8,9 @@ ScheduleFullCompaction, Backup and Close (after or concurrently with the last op
 REAL planner and background compaction loops (compactions committed inside the traces are counted: vacuity guard), logging call/ret
 lines under one mutex.  TLC (-workers 1, StateDeque, high-water mark, POSTCONDITION) accepts a trace iff some placement of the
 internal steps between each call and ret explains every read and the final state.  A rejected trace is a VIOLATION (non-serializable
-read / lost or resurrected point / wrong error); a negative control (one read result of an accepted trace altered) must be rejected.
+read / lost or resurrected point / wrong error) unless TraceTSMEngine with Relaxed = TRUE accepts that one trace (a read overlapping a
+range delete of the same series returned an overwritten value of a point in the delete's range: known finding
+stale_value_during_inflight_delete); a negative control (one read result of an accepted trace altered) must be rejected.
 Deadlock: the recorder's watchdog (no event for 180 s) ends the run with a `stuck` line; the same seed is run again and only a
 reproduced stall is reported (else exit 2).  Panics of the code under test are violations.
 Race monitor: the same workload runs under `go build -race`; every DATA RACE report is real-code behaviour and is reported as a
@@ -78,8 +80,12 @@ def finish_proc(p, timeout):
     return p.returncode
 
 
-def validate(ctx, path, tag):
-    r = ctx.tlc('TraceTSMEngine', 'TraceTSMEngine.cfg', workers=1, timeout=2400, extra_files={'trace.ndjson': path}, dfs=True,
+PAT_STALE = 'stale_value_during_inflight_delete'
+PAT_CLOSE_PANIC = 'delete_racing_close_panics_in_field_set_save'
+
+
+def validate(ctx, path, tag, cfg='TraceTSMEngine.cfg'):
+    r = ctx.tlc('TraceTSMEngine', cfg, workers=1, timeout=2400, extra_files={'trace.ndjson': path}, dfs=True,
                 tag='trace-' + tag, heap='4g')
     if r.timed_out:
         raise vlib.Inconclusive('trace validation timed out')
@@ -145,8 +151,19 @@ def validate_all(ctx, traces, tag, stats):
         ctx.traces_validated += 1
         stats['traces_rejected'] += 1
         at = json.dumps(bad_lines[rel - 1]) if 1 <= rel <= len(bad_lines) else '?'
+        # classification: is the rejected trace explained once a read that takes its step while a range delete of the same series
+        # is in flight may return, for the points of that delete's range, any value ever stored there (known finding)? Nothing else
+        # is relaxed, and only this one trace is judged that way.
+        pats = []
+        one = ctx.tmp(f'{tag}-rejected{rounds}.ndjson')
+        with open(one, 'w') as f:
+            f.writelines(traces[upto])
+        ok2, _ = validate(ctx, one, f'{tag}-relaxed{rounds}', cfg='TraceTSMEngine.Relaxed.cfg')
+        if ok2:
+            pats = [PAT_STALE]
+            stats['traces_rejected_explained_by_' + PAT_STALE] = stats.get('traces_rejected_explained_by_' + PAT_STALE, 0) + 1
         ctx.divergences.append({'case': {'mode': 'trace', 'lines': bad_lines},
-                                'result': {'step': rel, 'patterns': [],
+                                'result': {'step': rel, 'patterns': pats,
                                            'msg': f'no placement of the operations\' effects between their call and ret lines explains the '
                                                   f'recorded trace: its line {rel} cannot be consumed ({at})'}})
         pos = upto + 1
@@ -238,10 +255,22 @@ def run(ctx):
             raise vlib.Inconclusive(f'recorder {tag} stalled once (seed {seed}) and did not stall when run again: not reproducible')
         if rc != 0:
             kind = 'panic' if ('panic:' in err or 'fatal error:' in err) else 'recorder failure'
+            at = err.find('panic:') if 'panic:' in err else max(0, len(err) - 6000)
+            head = err[at:at + 6000]
+            # known finding: a range delete racing with Shard.Close panics in the field set's change manager (function chain of the
+            # panicking goroutine, not line numbers)
+            first = '\n'.join(head.split('\n\ngoroutine ')[:2])     # the panic line and the panicking goroutine's stack
+            pats = []
+            if ('send on closed channel' in first and 'measurementFieldSetChangeMgr).RequestSave' in first
+                    and '(*Engine).deleteSeriesRange' in first and '(*Shard).DeleteSeriesRange' in first):
+                pats = [PAT_CLOSE_PANIC]
             ctx.traces_validated += 1
             ctx.divergences.append({'case': {'mode': kind, 'seed': seed, 'race': i < 0},
-                                    'result': {'step': -1, 'patterns': [], 'msg': f'{kind} in the concurrent workload (seed {seed}, exit {rc}): '
-                                               + err[-6000:]}})
+                                    'result': {'step': -1, 'patterns': pats, 'msg': f'{kind} in the concurrent workload (seed {seed}, exit {rc}): '
+                                               + head}})
+            stats['recorder_crashes'] = stats.get('recorder_crashes', 0) + 1
+            if i >= 0 and os.path.exists(out):
+                files.append((tag, out))     # the traces completed before the crash are still validated
             continue
         if i >= 0:
             files.append((tag, out))
@@ -262,7 +291,7 @@ def run(ctx):
     # 2. validate every recorded trace
     alltraces = []
     for tag, out in files:
-        alltraces += split_traces(out)
+        alltraces += [t for t in split_traces(out) if '"ev":"reset"' in t[-1]]     # (a crashed recorder leaves a partial last trace)
     if not alltraces:
         raise vlib.Inconclusive('no trace was recorded')
     validate_all(ctx, alltraces, 'all', stats)
